@@ -98,6 +98,10 @@ static void case_mpn(ByteSource& in, CaseInfo& ci) {
   static const char* names[] = {"mpn_and_n", "mpn_andn_n", "mpn_ior_n", "mpn_iorn_n", "mpn_nand_n", "mpn_nior_n", "mpn_xor_n", "mpn_xnor_n", "mpn_com", "mpn_popcount", "mpn_hamdist", "mpn_scan0", "mpn_scan1"};
   size_t cap = expcap(in.scale, 8, 4000); size_t n = in.flag() ? (size_t)in.range(1, std::min<size_t>(cap, 40)) : (size_t)in.logrange(1, cap);
   Limbs a = limbs(in, n), b = limbs(in, n); ci.label(names[f]); if (n >= 2) ci.nontrivial = true;
+  // rare long operands for the linear-time counters: 4096..20000 limbs, all ones / one limb value repeated (whole bit columns set or clear in every limb,
+  // which is what a blocked or packed accumulation in a counting loop is sensitive to) / such a repeated value with a few random limbs / random
+  if ((f == 9 || f == 10) && in.scale >= 30 && in.chance(10)) { n = (size_t)in.range(4096, 20000); unsigned st = in.pick({2, 3, 2, 1}); uint64_t v = st == 0 ? ~0ull : in.u64() | (in.flag() ? 0xffffull << (16 * in.range(0, 3)) : 0);
+    a.assign(n, v); if (st == 3) a = limbs(in, n, S_UNIFORM); if (st == 2) for (int k = 0; k < 5; k++) a[in.range(0, n - 1)] = in.u64(); b.assign(n, f == 10 && in.flag() ? ~v : 0); if (in.flag()) b[in.range(0, n - 1)] ^= in.u64(); ci.label("counting:4096_to_20000_limbs"); }
   ci.d("%s n=%zu ", names[f], n); DESC(ci, "a=" + show(a, 64) + " b=" + show(b, 64));
   if (f <= 8) {
     unsigned ov = f == 8 ? in.pick({2, 1}) : in.pick({3, 1, 1}); Guarded r(n), s1(n), s2(n); memcpy(s1.p(), a.data(), n * 8); memcpy(s2.p(), b.data(), n * 8);
@@ -115,7 +119,7 @@ static void case_mpn(ByteSource& in, CaseInfo& ci) {
   } else if (f == 9) {
     uint64_t e = 0; for (auto x : a) e += __builtin_popcountll(x); uint64_t g = mpn_popcount(a.data(), n); REQUIRE(g == e, "mpn_popcount(n=%zu): returned %llu, expected %llu", n, (unsigned long long)g, (unsigned long long)e);
   } else if (f == 10) {
-    if (in.chance(60)) b = a; uint64_t e = 0; for (size_t i = 0; i < n; i++) e += __builtin_popcountll(a[i] ^ b[i]); uint64_t g = mpn_hamdist(a.data(), b.data(), n);
+    if (n < 4096 && in.chance(60)) b = a; uint64_t e = 0; for (size_t i = 0; i < n; i++) e += __builtin_popcountll(a[i] ^ b[i]); uint64_t g = mpn_hamdist(a.data(), b.data(), n);
     REQUIRE(g == e, "mpn_hamdist(n=%zu): returned %llu, expected %llu", n, (unsigned long long)g, (unsigned long long)e);
   } else {
     // mpn_scan0/1: "it is required that there be a clear/set bit within the area at or beyond bit position"
